@@ -13,7 +13,7 @@ type MustacheTokenizer struct {
 	special      bool
 	specialState tokenizers.ITokenizerState
 	lastVersion  int  // the reader version this mode belongs to
-	tagStart     bool // the last token was an opening '{{' or '{{{'
+	tagStart     bool // the last token was an opening '{{' or '{{{' and the comment mark '!' follows it
 	comment      bool // the last two tokens were an opening and '!': the body of a comment follows
 }
 
@@ -96,7 +96,7 @@ func (c *MustacheTokenizer) ReadNextToken() *tokenizers.Token {
 	// (blanks between the opening braces and '!' do not count: '{{ ! ... }}' is a comment too)
 	if token == nil || token.Type() != tokenizers.Whitespace {
 		c.comment = c.tagStart && isSymbol && token.Value() == "!"
-		c.tagStart = isSymbol && (token.Value() == "{{" || token.Value() == "{{{")
+		c.tagStart = isSymbol && (token.Value() == "{{" || token.Value() == "{{{") && c.commentMarkAhead()
 	}
 	// Switch to quote when '{{' or '{{{' symbols found
 	// (only the closing symbol itself: a decoded string literal can have the same text)
@@ -104,6 +104,20 @@ func (c *MustacheTokenizer) ReadNextToken() *tokenizers.Token {
 		c.special = true
 	}
 	return token
+}
+
+// commentMarkAhead tells whether the next character, blanks aside, is the comment mark '!'. The text decides it,
+// not the tokens: which tokens come back between the braces and the mark depends on the skip options.
+func (c *MustacheTokenizer) commentMarkAhead() bool {
+	count := 0
+	nextSymbol := c.Scanner.Peek()
+	for nextSymbol >= 0 && nextSymbol <= ' ' {
+		c.Scanner.Read()
+		count++
+		nextSymbol = c.Scanner.Peek()
+	}
+	c.Scanner.UnreadMany(count)
+	return nextSymbol == '!'
 }
 
 // readCommentBody reads the text of a comment up to the closing braces or the end of input; nil when there is no text.
